@@ -5,7 +5,9 @@ import (
 	"encoding/json"
 	"errors"
 	"fmt"
+	"strings"
 	"sync"
+	"sync/atomic"
 	"time"
 
 	"github.com/hprose/hprose-golang/v3/rpc/core"
@@ -34,6 +36,7 @@ type c18Case struct {
 	Conc    int     `json:"conc,omitempty"`
 	N       int     `json:"n,omitempty"`
 	Seed    int64   `json:"seed,omitempty"`
+	Tight   bool    `json:"tight,omitempty"` // Conc goroutines call the balancer's handler directly, N times each, without pause
 }
 
 type c18Actives interface{ VerifActives() []int64 }
@@ -139,8 +142,15 @@ func c18Run(t *tr.Writer, id int, c c18Case) {
 	client.Use(lb, core.IOHandler(rec))
 	Watch(id, tr.Rec{"algo": c.Algo}, c)
 	t.Reset(id, tr.Rec{"algo": c.Algo, "n": n, "w": wts, "conc": c.Conc > 0, "input": c})
+	var invoked int64
 	invoke := func() {
-		defer func() { recover() }()
+		atomic.AddInt64(&invoked, 1)
+		defer func() {
+			// a panic that is not the scripted one of the downstream handler comes from the balancer
+			if p := recover(); p != nil && !strings.Contains(fmt.Sprint(p), "scripted-panic") {
+				t.Emit(tr.Rec{"ev": "balancer-panic", "msg": fmt.Sprint(p)})
+			}
+		}()
 		client.Invoke("f", nil)
 	}
 	quiesce := func() {
@@ -151,7 +161,72 @@ func c18Run(t *tr.Writer, id int, c c18Case) {
 				act = []int64{}
 			}
 		}
+		mu.Lock()
+		picks := k
+		mu.Unlock()
+		t.Emit(tr.Rec{"ev": "quiesce", "actives": act, "invoked": atomic.LoadInt64(&invoked), "picks": picks})
+	}
+	if c.Tight {
+		// the balancer's handler called directly and as fast as the machine goes: every call must come out at
+		// the next handler with a configured URL (a balancer with unsynchronised state shows only at such rates)
+		h, ok := lb.(interface {
+			Handler(context.Context, []byte, core.NextIOHandler) ([]byte, error)
+		})
+		if !ok {
+			t.Emit(tr.Rec{"ev": "setup-failed"})
+			return
+		}
+		var calls, valid, invalid, panics int64
+		var wg sync.WaitGroup
+		for g := 0; g < c.Conc; g++ {
+			wg.Add(1)
+			go func(g int) {
+				defer wg.Done()
+				var myValid, myInvalid, myPanics int64
+				i := 0
+				next := func(ctx context.Context, request []byte) ([]byte, error) {
+					u := core.GetClientContext(ctx).URL
+					if u != nil && order[u.String()] >= 1 && order[u.String()] <= n {
+						myValid++
+					} else {
+						myInvalid++
+					}
+					switch (i + g) % 5 {
+					case 3:
+						return nil, errors.New("scripted")
+					case 4:
+						panic("scripted-panic")
+					}
+					return nil, nil
+				}
+				for i = 0; i < c.N; i++ {
+					func() {
+						defer func() {
+							if p := recover(); p != nil && !strings.Contains(fmt.Sprint(p), "scripted-panic") {
+								myPanics++
+							}
+						}()
+						cc := core.NewClientContext()
+						cc.Init(client)
+						_, _ = h.Handler(core.WithContext(context.Background(), cc), nil, next)
+					}()
+				}
+				atomic.AddInt64(&calls, int64(c.N))
+				atomic.AddInt64(&valid, myValid)
+				atomic.AddInt64(&invalid, myInvalid)
+				atomic.AddInt64(&panics, myPanics)
+			}(g)
+		}
+		wg.Wait()
+		t.Emit(tr.Rec{"ev": "tight", "calls": calls, "valid": valid, "invalid": invalid, "panics": panics})
+		act := []int64{}
+		if a, ok := lb.(c18Actives); ok {
+			if act = a.VerifActives(); act == nil {
+				act = []int64{}
+			}
+		}
 		t.Emit(tr.Rec{"ev": "quiesce", "actives": act})
+		return
 	}
 	if c.Conc > 0 {
 		var wg sync.WaitGroup
@@ -380,6 +455,21 @@ func runC18(a Args) tr.Summary {
 			}
 		}
 		run(c18Case{Algo: algo, Weights: w, Conc: 16, N: 50, Seed: a.Seed*7919 + int64(i)}, true)
+	}
+	// 4. the handler called directly, concurrently and without pause
+	for i, algo := range algos {
+		per := 20000
+		if algo == "random" {
+			per = 150000
+		}
+		if a.Tier == "thorough" {
+			per *= 5
+		}
+		w := []int{1, 1, 1}
+		if !(algo == "rr" || algo == "random" || algo == "la") {
+			w = []int{1 + i%3, 2, 3}
+		}
+		run(c18Case{Algo: algo, Weights: w, Conc: 16, N: per, Tight: true, Seed: a.Seed}, true)
 	}
 	sum.Cases = id
 	sum.Events = t.Lines
